@@ -62,10 +62,15 @@ class Socket:
         try:
             if timeout != 0:
                 self.sock.settimeout(timeout)
-            data = self.sock.recv(256)
-            data_len = struct.unpack_from("<H", data, 2)[0]
-            while len(data) - HEADER_SIZE < data_len:
-                data += self.sock.recv(256)
+            data = b""
+            data_len = None  # unknown until the length field (header bytes 2-3) has arrived
+            while data_len is None or len(data) - HEADER_SIZE < data_len:
+                chunk = self.sock.recv(256)
+                if not chunk:
+                    raise CommError("socket connection broken, connection closed by peer")
+                data += chunk
+                if data_len is None and len(data) >= 4:
+                    data_len = struct.unpack_from("<H", data, 2)[0]
 
             return data
         except socket.error as err:
